@@ -564,3 +564,185 @@ def prop_form(ctx):
     ctx.ob('PROP-FORM', ok, None, '(Fi, Fig, Fia) = system_matrices(trajectory)', f=f,
            node=(unpack[0] if unpack else f.node), key='unpack',
            why='system matrices are unpacked in a different order')
+
+
+# -------------------------------------------------------------------- EM-LINEAR
+def em_linear(ctx):
+    """The error model is compared with the symbolic linearisation of the navigation equations.
+
+    Navigation equations (the same ones KER-CONSIST ties the integrator to and SIM-KIN the
+    synthesiser), assembled from earth.*:
+        lat' = R2D VN / rn,  lon' = R2D VE / rp,  alt' = -VD
+        V'   = C f - (2 W + rho) x V + g_n,        rho = curvature_matrix @ V
+        C'   = C [w x] - [(W + rho) x] C
+    Error coordinates = the library's own correction convention (ES-FIRST decides that
+    correct_pva implements exactly this to first order):
+        x_DR = metric * d(lla),   dC = -[phi x] C,   x_DV = dV + phi x V.
+    The time derivative of x along a perturbed solution is linear in (x, dw, df); its
+    coefficient matrices are the exact linearisation F*, Bg*, Ba*.
+    """
+    ctx.rule('EM-LINEAR', 'F, B_gyro, B_accel equal the symbolic linearisation of the navigation '
+             'equations in the library\'s error coordinates: exactly for a stationary vehicle '
+             '(all 81 + 54 entries at V = 0, every latitude, altitude and attitude), and exactly '
+             'in every entry that the model makes velocity-dependent; what remains (neglected) is '
+             'proportional to velocity times Earth rate or curvature, plus the latitude gradient '
+             'of normal gravity')
+    repo = ctx.repo
+    h = _HC()
+    ev, emc, em, pva, (F, Bg, Ba) = _sysmat(ctx, True, h, Alg())
+    A = ev.A
+    C = h.C
+    fm = emc.methods['system_matrices']
+    vec = lambda xs: SArray((3,), {(i,): x for i, x in enumerate(xs)})
+    lat, alt = A.sym('lat'), A.sym('alt')
+    V = vec([A.sym('VN'), A.sym('VE'), A.sym('VD')])
+    f = vec([A.sym('f%d' % i) for i in range(3)])
+    w = vec([A.sym('w%d' % i) for i in range(3)])
+    ev2 = SymEval(repo, A)
+    try:
+        rn, re, rp = ev2.call_function(repo.function('earth.principal_radii'), [lat, alt])
+        Om = ev2.call_function(repo.function('earth.rate_n'), [lat])
+        Rm = ev2.call_function(repo.function('earth.curvature_matrix'), [lat, alt])
+        gn = ev2.call_function(repo.function('earth.gravity_n'), [lat, alt])
+        sk = lambda v: ev2.call_function(repo.function('util.skew_matrix'), [v])
+    except Unsupported as e:
+        raise AnalysisError('earth functions not analysable: %s' % e)
+    d2r, r2d = A.sym(A.D2R), A.sym(A.R2D)
+    add, sub, neg = (lambda a, b: ev2.emap(A.add, a, b)), (lambda a, b: ev2.emap(A.sub, a, b)), \
+        (lambda a: ev2.emap(A.neg, a))
+    rho = ev2.matmul(Rm, V)
+    win = add(Om, rho)
+    latd = A.div(A.mul(r2d, V.get((0,))), rn)
+    lond = A.div(A.mul(r2d, V.get((1,))), rp)
+    altd = A.neg(V.get((2,)))
+    Vd = add(sub(ev2.matmul(C, f), ev2.cross(add(add(Om, Om), rho), V)), gn)
+    Cd = sub(ev2.matmul(C, sk(w)), ev2.matmul(sk(win), C))
+    x = [A.sym('x%d' % i) for i in range(9)]
+    idx = {g: repo.const('error_model.InsErrorModel.' + g) for g in ('DR', 'DV', 'PHI')}
+    xDR, xDV, phi = (vec([x[i] for i in idx[g]]) for g in ('DR', 'DV', 'PHI'))
+    dlat = A.div(A.mul(r2d, xDR.get((0,))), rn)
+    dlon = A.div(A.mul(r2d, xDR.get((1,))), rp)
+    dalt = A.neg(xDR.get((2,)))
+    dV = sub(xDV, ev2.cross(phi, V))
+    dC = neg(ev2.matmul(sk(phi), C))
+    dfv = vec([A.sym('df%d' % i) for i in range(3)])
+    dwv = vec([A.sym('dw%d' % i) for i in range(3)])
+
+    def delta(e):
+        out = A.add(A.mul(A.diff(e, 'lat'), dlat), A.mul(A.diff(e, 'alt'), dalt))
+        for k, n in enumerate(['VN', 'VE', 'VD']):
+            out = A.add(out, A.mul(A.diff(e, n), dV.get((k,))))
+        for a in range(3):
+            for b in range(3):
+                out = A.add(out, A.mul(A.diff(e, 'C%d%d' % (a, b)), dC.get((a, b))))
+        for k in range(3):
+            out = A.add(out, A.mul(A.diff(e, 'f%d' % k), dfv.get((k,))))
+            out = A.add(out, A.mul(A.diff(e, 'w%d' % k), dwv.get((k,))))
+        return out
+
+    def ddt(e):
+        out = A.add(A.mul(A.diff(e, 'lat'), latd), A.mul(A.diff(e, 'alt'), altd))
+        for k, n in enumerate(['VN', 'VE', 'VD']):
+            out = A.add(out, A.mul(A.diff(e, n), Vd.get((k,))))
+        for a in range(3):
+            for b in range(3):
+                out = A.add(out, A.mul(A.diff(e, 'C%d%d' % (a, b)), Cd.get((a, b))))
+        return out
+    # attitude error kinematics  phi' = -C dw - (W + rho) x phi + d(W + rho)
+    dwin = vec([delta(win.get((k,))) for k in range(3)])
+    phid = add(sub(neg(ev2.matmul(C, dwv)), ev2.cross(win, phi)), dwin)
+    _phi_kinematics(ctx, fm)
+    m_lat, m_lon = A.mul(d2r, rn), A.mul(d2r, rp)
+    rows = {}
+    rows[idx['DR'][0]] = A.add(A.mul(ddt(m_lat), dlat), A.mul(m_lat, delta(latd)))
+    rows[idx['DR'][1]] = A.add(A.mul(ddt(m_lon), dlon), A.mul(m_lon, delta(lond)))
+    rows[idx['DR'][2]] = A.neg(delta(altd))
+    dVd = vec([delta(Vd.get((k,))) for k in range(3)])
+    xdv = add(add(dVd, ev2.cross(phid, V)), ev2.cross(phi, Vd))
+    for k in range(3):
+        rows[idx['DV'][k]] = xdv.get((k,))
+        rows[idx['PHI'][k]] = phid.get((k,))
+    still = {'VN': A.const(0), 'VE': A.const(0), 'VD': A.const(0)}
+    names = {}
+    for g in ('DR', 'DV', 'PHI'):
+        for k, i in enumerate(idx[g]):
+            names[i] = '%s%d' % (g, k + 1)
+    vatoms = {'VN', 'VE', 'VD'}
+    n = 0
+    bad0, bad1 = [], []
+    for i in range(9):
+        e = rows[i]
+        cols = [('F', j, A.coeff(e, 'x%d' % j), F.get((i, j))) for j in range(9)] + \
+               [('B_gyro', j, A.coeff(e, 'dw%d' % j), Bg.get((i, j))) for j in range(3)] + \
+               [('B_accel', j, A.coeff(e, 'df%d' % j), Ba.get((i, j))) for j in range(3)]
+        for mat, j, want, got in cols:
+            n += 1
+            d = A.sub(want, got)
+            cname = names[j] if mat == 'F' else 'xyz'[j]
+            if A.is_zero(d):
+                ctx.ob('EM-LINEAR', True, None, '%s[%s, %s] == exact linearisation'
+                       % (mat, names[i], cname), f=fm, key='%s-%d-%d' % (mat, i, j))
+                continue
+            d0 = A.subst(d, still)
+            ok0 = A.is_zero(d0)
+            if not ok0 and mat == 'F' and i in idx['DV'] and j == idx['DR'][0]:
+                # the only velocity-independent term the model neglects: the horizontal
+                # (latitude) gradient of normal gravity, d g_n / d lat * d lat
+                k_ = idx['DV'].index(i)
+                hg = A.mul(A.diff(gn.get((k_,)), 'lat'), A.div(r2d, rn))
+                ok0 = A.eq(d0, hg)
+            dep = any(a in vatoms or (A._nested_atoms(a) & vatoms) for a in A.atoms_of(got))
+            # what is neglected must carry an Earth-smallness factor (Earth rate or curvature):
+            # with RATE -> 0 and 1/radius -> 0 the remainder has to vanish
+            flat = {'earth.RATE': A.const(0)}
+            for a_ in A.atoms_of(d):
+                if a_.startswith('inv(') and 'earth.A' in a_:
+                    flat[a_] = A.const(0)
+            big = not A.is_zero(A.subst(d, flat))
+            ok = ok0 and not dep and not big
+            ctx.ob('EM-LINEAR', ok, None,
+                   '%s[%s, %s]: exact at V = 0; the model entry is velocity-independent and the '
+                   'neglected remainder is proportional to velocity' % (mat, names[i], cname),
+                   f=fm, key='%s-%d-%d' % (mat, i, j),
+                   why='%s[%s, %s] of the error model is not the linearisation of the navigation '
+                       'equations: %s' % (mat, names[i], cname,
+                                          'it is wrong already for a stationary vehicle (V = 0)'
+                                          if not ok0 else
+                                          ('the velocity-dependent coupling it models differs '
+                                           'from the exact one' if dep else
+                                           'it omits a velocity coupling that is not small (no '
+                                           'Earth-rate or curvature factor)')))
+    ctx.floor('EM-LINEAR', n, 135, 'matrix entries')
+
+
+def _phi_kinematics(ctx, fm):
+    """PHI-KIN: the attitude-error kinematics used above,
+    phi' = -C dw - (W + rho) x phi + d(W + rho), is derived mechanically from
+    C' = C [w x] - [win x] C and dC = -[phi x] C with C a genuine rotation matrix
+    (mat_from_rph of symbolic Euler angles, so that C C^T = I holds in the normal form)."""
+    repo = ctx.repo
+    ev = SymEval(repo, Alg(), hooks=_H())
+    A = ev.A
+    vec = lambda xs: SArray((3,), {(i,): x for i, x in enumerate(xs)})
+    Cm = ev.call_function(repo.function('transform.mat_from_rph'),
+                          [vec([A.sym('roll'), A.sym('pitch'), A.sym('heading')])])
+    sk = lambda v: ev.call_function(repo.function('util.skew_matrix'), [v])
+    w, dw, win, dwin, phi = (vec([A.sym('%s%d' % (n, i)) for i in range(3)])
+                             for n in ('w', 'dw', 'u', 'du', 'p'))
+    sub = lambda a, b: ev.emap(A.sub, a, b)
+    add = lambda a, b: ev.emap(A.add, a, b)
+    Cd = sub(ev.matmul(Cm, sk(w)), ev.matmul(sk(win), Cm))
+    dC = ev.emap(A.neg, ev.matmul(sk(phi), Cm))
+    # variation of C' :  dC [w x] + C [dw x] - [dwin x] C - [win x] dC
+    dCd = sub(sub(add(ev.matmul(dC, sk(w)), ev.matmul(Cm, sk(dw))), ev.matmul(sk(dwin), Cm)),
+              ev.matmul(sk(win), dC))
+    # d/dt(dC) = -[phi' x] C - [phi x] C'   =>   [phi' x] = -(dCd + [phi x] C') C^T
+    M = ev.emap(A.neg, ev.matmul(add(dCd, ev.matmul(sk(phi), Cd)), ev.transpose(Cm)))
+    got = vec([M.get((2, 1)), M.get((0, 2)), M.get((1, 0))])
+    want = add(sub(ev.emap(A.neg, ev.matmul(Cm, dw)), ev.cross(win, phi)), dwin)
+    ok = all(A.eq(got.get((k,)), want.get((k,))) for k in range(3)) and all(
+        A.eq(M.get((a, b)), A.neg(M.get((b, a)))) for a in range(3) for b in range(3))
+    ctx.ob('EM-LINEAR', ok, None, "attitude-error kinematics phi' = -C dw - win x phi + d(win) "
+           'follows from the attitude equation and dC = -[phi x] C (rotation model)', f=fm,
+           key='phi-kinematics',
+           why='internal: the attitude-error kinematics could not be re-derived')
